@@ -44,6 +44,19 @@ func RunSpin(c PCase) pbt.Outcome {
 		s := fmt.Sprintf(format, a...)
 		viol.CompareAndSwap(nil, &s)
 	}
+	var churners []int
+	for w, role := range c.Roles {
+		if role == "churn" {
+			churners = append(churners, w)
+		}
+	}
+	curKey := make([]atomic.Int64, len(c.Roles)) // role "newkeys": the key its owner is working on right now
+	var newkeyers []int
+	for w, role := range c.Roles {
+		if role == "newkeys" {
+			newkeyers = append(newkeyers, w)
+		}
+	}
 	stored := make([][]int, len(c.Roles)) // per goroutine: values it put in (shared keys)
 	taken := make([][]int, len(c.Roles))  // per goroutine: values it took out
 	var gate atomic.Int32
@@ -102,6 +115,20 @@ func RunSpin(c PCase) pbt.Outcome {
 					if v, ok := m.Load(i & 1); ok && !validShared(i&1, v) {
 						fail("Load(%d) = %d, which nobody ever stored under that key", i&1, v)
 					}
+					if len(newkeyers) > 0 {
+						if k := int(curKey[newkeyers[i%len(newkeyers)]].Load()); k != 0 {
+							if v, ok := m.Load(k); ok && v != k+3 {
+								fail("Load(%d) = %d: the only value ever stored under that key is %d (the value belongs to another key)", k, v, k+3)
+							}
+						}
+					}
+					// the private keys of the churners (mostly present in the dirty map only): absent, or the one value their owner stores
+					if len(churners) > 0 {
+						k := 1_000_000 + churners[i%len(churners)]*1000 + (i/3)%5
+						if v, ok := m.Load(k); ok && v != k+3 {
+							fail("Load(%d) = %d: the only value ever stored under that key is %d (the value belongs to another key)", k, v, k+3)
+						}
+					}
 				case "range":
 					if c.Stable > 1000 && i%40 != 0 {
 						runtime.Gosched() // a Range over a big map is slow: one iteration in 40
@@ -145,6 +172,14 @@ func RunSpin(c PCase) pbt.Outcome {
 						fail("%s", bad)
 					}
 					rangesDone.Add(1)
+				case "newkeys":
+					// a key never used before, every iteration (with many stable keys around it stays in the dirty map only)
+					k := 2_000_000 + w*100_000_000 + i
+					m.Store(k, k+3)
+					curKey[w].Store(int64(k))
+					if v, ok := m.LoadAndDelete(k); !ok || v != k+3 {
+						fail("never-used private key %d: LoadAndDelete right after this goroutine's Store = (%d,%v), want (%d,true)", k, v, ok, k+3)
+					}
 				case "churn":
 					k := 1_000_000 + w*1000 + i%5
 					m.Store(k, k+3)
@@ -226,7 +261,7 @@ func RunSpin(c PCase) pbt.Outcome {
 
 var specSpin = pbt.Register(&pbt.Spec[PCase]{
 	Property: "C04", Name: "C04.spin",
-	Rule: "E4 free-spinning, no race detector (speed): 2..6 goroutines with roles {LoadOrStore on shared key 0/1, LoadAndDelete on shared key 0/1, Range, Load, churn of private keys} run 20000..300000 iterations each on one Map with 0..40 (one case in eight: 20000 or 40000) stable keys, no barrier between iterations; " +
+	Rule: "E4 free-spinning, no race detector (speed): 2..6 goroutines with roles {LoadOrStore on shared key 0/1, LoadAndDelete on shared key 0/1, Range, Load, churn of private keys, never-used private keys whose current one other goroutines load} run 20000..300000 iterations each on one Map with 0..40 (one case in eight: 20000 or 40000) stable keys, no barrier between iterations; " +
 		"oracle = invariants of any linearizable map: stable keys are found by every Load and visited exactly once by every Range; values enter a shared key only through a LoadOrStore that stored and leave only through LoadAndDelete, " +
 		"all values unique: each is taken out exactly once or is the final value (nothing lost, nothing resurrected, nothing invented); private keys answer deterministically; never-stored keys are never seen; non-trivial = >=2 goroutines",
 	Gen: func(t *rapid.T) PCase {
@@ -239,6 +274,13 @@ var specSpin = pbt.Register(&pbt.Spec[PCase]{
 			c.Iters = 300000
 		case 1:
 			c.Roles = []string{"los0", "los0", "lad0", "lad0", "churn"}
+			if rapid.IntRange(0, 2).Draw(t, "readers") == 1 {
+				// readers of the shared keys while those keys come and go and other (private) keys are created all the time:
+				// a reader must never see a value that was stored under ANOTHER key
+				c.Roles = []string{"newkeys", "newkeys", "load", "load", "load", "load", "load", "load"}
+				c.Stable = rapid.SampledFrom([]int{40, 20000, 40000}).Draw(t, "st")
+				c.Iters = 100000
+			}
 			if rapid.Bool().Draw(t, "big") {
 				// a big map (the read map holds more than 2^14 entries) whose dirty map is rebuilt again and again (every
 				// Range promotes) while several goroutines store keys that are new to it
